@@ -1228,6 +1228,10 @@ def cli_box(tier, seed):
         (['pitfall', 8, 3, 4, 3, 2], 74), (['pitfall', 6, 4, 3, 2, 4], 4 * (12 + 3 + 2 + 14 + 3)),
         (['or', 3, 2], 5), (['or', 0, 0], 0), (['and', 2, 3], 5), (['and', 0, 4], 4),
         (['true'], 0), (['false'], 0),
+        # a left degree larger than the number of left vertices (and smaller than the right side)
+        (['php', 3, 10, 5], 15), (['php', 2, 6, 4], 8), (['php', 'glrd', 3, 7, 5], 15),
+        (['subsetcard', 'glrd', 2, 5, 3], 6), (['stone', 5, 'path', 2, '--sparse', 4], 5 + 3 * 4),
+
     ]
     out = []
     for i, (argv, n) in enumerate(both):
